@@ -1,6 +1,7 @@
 """
 This file contains the AquacropModel class that runs the simulation.
 """
+import copy
 import time
 import datetime
 import os
@@ -221,7 +222,8 @@ class AquaCropModel:
         )
 
         # Compute additional variables
-        self._param_struct.CO2 = self.co2_concentration
+        # private copy: the concentration of the current year is written into it
+        self._param_struct.CO2 = copy.deepcopy(self.co2_concentration)
         self._param_struct = compute_variables(
             self._param_struct, self.weather_df, self._clock_struct
         )
